@@ -1,8 +1,9 @@
 (* MiniGo with slices that are written: the second fragment of Go that the translator (harness/cmd/anchors,
    emitSliceFunc) prints as Coq data, and its evaluator.  On top of MiniGo/Syntax.v's integer expressions:
    slices of fixed-width integers (float32 elements are carried as their 32-bit patterns) that are made,
-   indexed, stored into and ranged over by index, the encoding/binary big-endian accessors applied to a
-   re-sliced buffer, and a slice result.  Every identifier is declared at most once in a printed function
+   indexed, stored into, appended to and ranged over by index, assignments to integer variables, if / else,
+   short-circuit || and &&, the encoding/binary big-endian accessors applied to a re-sliced buffer, and a
+   slice result.  Every identifier is declared at most once in a printed function
    (the translator refuses anything else), so Go's block scoping is: what an iteration declares is gone at
    its end -- [restrict] below.  A Go panic (index out of range, short buffer, division by zero) is [None]. *)
 From Coq Require Import ZArith List String Bool.
@@ -19,7 +20,9 @@ Inductive sexpr :=
 | XBits (e : sexpr)                              (* math.Float32bits / math.Float32frombits: the pattern itself *)
 | XLen (s : string)
 | XIndex (s : string) (i : sexpr)
-| XGetBE (w : Z) (s : string) (lo : sexpr) (hi : option sexpr).   (* binary.BigEndian.Uint<w>(s[lo:hi]) *)
+| XGetBE (w : Z) (s : string) (lo : sexpr) (hi : option sexpr)    (* binary.BigEndian.Uint<w>(s[lo:hi]) *)
+| XOrElse (a b : sexpr)                          (* a || b: b is not evaluated when a holds *)
+| XAndAlso (a b : sexpr).                        (* a && b: b is not evaluated when a fails *)
 
 Inductive sstmt :=
 | TDecl (x : string) (t : ty) (e : sexpr)                 (* x := e *)
@@ -28,7 +31,12 @@ Inductive sstmt :=
 | TPutBE (w : Z) (s : string) (lo : sexpr) (e : sexpr)    (* binary.BigEndian.PutUint<w>(s[lo:], e) *)
 | TRangeI (i : string) (s : string) (body : list sstmt)   (* for i := range s *)
 | TRangeIV (i v : string) (t : ty) (s : string) (body : list sstmt)   (* for i, v := range s *)
-| TReturn (s : string).                                   (* return s *)
+| TReturn (s : string)                                    (* return s *)
+| TAssign (x : string) (e : sexpr)                        (* x = e, x an integer variable *)
+| TAppend (s : string) (e : sexpr)                        (* s = append(s, e): capacities are not modelled (no two slices of a
+                                                             printed function share an array: there is no slice-valued assignment) *)
+| TIf (c : sexpr) (a b : list sstmt)                      (* if c { a } else { b } *)
+| TReturnApp (s : string) (e : sexpr).                    (* return append(s, e) *)
 
 Record sfunc := { sf_name : string; sf_params : list (string * ty); sf_body : list sstmt }.
 
@@ -104,6 +112,16 @@ Fixpoint seval (st : state) (x : sexpr) : option Z :=
           | Some h => match seval st h with Some vhi => get_be w l vlo vhi | None => None end
           end
       | _, _ => None
+      end
+  | XOrElse a b =>
+      match seval st a with
+      | Some va => if va =? 0 then seval st b else Some 1
+      | None => None
+      end
+  | XAndAlso a b =>
+      match seval st a with
+      | Some va => if va =? 0 then Some 0 else seval st b
+      | None => None
       end
   end.
 
@@ -194,6 +212,30 @@ Fixpoint sexec (s : sstmt) (st : state) {struct s} : sres :=
       match slice_of st s with
       | Some l => Some (st, Some l)
       | None => None
+      end
+  | TAssign x e =>
+      match lookup x (ints st), seval st e with
+      | Some (t, _), Some v => Some (set_int x t v st, None)
+      | _, _ => None
+      end
+  | TAppend s e =>
+      match lookup s (slices st), seval st e with
+      | Some (t, l), Some v => Some (set_slice s t (l ++ [wrap t v]) st, None)
+      | _, _ => None
+      end
+  | TIf c a b =>
+      match seval st c with
+      | Some v =>
+          match sexec_seq sexec (if v =? 0 then b else a) st with
+          | Some (st', r) => Some (restrict st st', r)       (* what the branch declared is gone *)
+          | None => None
+          end
+      | None => None
+      end
+  | TReturnApp s e =>
+      match lookup s (slices st), seval st e with
+      | Some (t, l), Some v => Some (st, Some (l ++ [wrap t v]))
+      | _, _ => None
       end
   end.
 
